@@ -46,7 +46,7 @@ PEM_LABEL = {"cert": "CERTIFICATE", "key": "RSA PRIVATE KEY", "tc": "CERTIFICATE
 # ------------------------------------------------------------------ credentials -----
 def gen_creds():
     """One PEM file per content token of spec/CtxCore.tla, all files of an item class of one size."""
-    if os.path.exists(CREDS + "/.done"):
+    if os.path.exists(CREDS + "/.done") and os.path.exists(CREDS + "/bad2_tc.pem"):
         return CREDS
     shutil.rmtree(CREDS, ignore_errors=True)
     os.makedirs(CREDS + "/raw")
@@ -81,6 +81,13 @@ def gen_creds():
         size = max(len(d) for d in data.values()) + 1
         body = "\n".join(["QUJDREVGR0hJSktMTU5PUFFSU1RVVldYWVo="] * 6)
         data["bad_" + it] = ("-----BEGIN %s-----\n%s\n-----END %s-----\n" % (PEM_LABEL[it], body, PEM_LABEL[it])).encode()
+        if it in ("tc", "crl"):
+            # a bundle whose first entry is sound and whose second entry is damaged (a base64 body that does not decode):
+            # malformed material all the same ("bad"), used by every other execution in place of the block of junk
+            whole = data["tAB" if it == "tc" else "rE"].decode()
+            k = whole.index("-----BEGIN", whole.index("-----END"))
+            body2 = whole.index("\n", k) + 1
+            data["bad2_" + it] = (whole[:body2 + 40] + "!!!!" + whole[body2 + 44:]).encode()
         for t, d in data.items():
             if len(d) > size:
                 raise InternalError("credential %s larger than its class" % t)
